@@ -168,3 +168,23 @@ Proof.
   - intros b. destruct b; reflexivity.
   - intros i r Hi. destruct i; discriminate.
 Qed.
+
+(* the slot is emptied: its handle was replaced by one naming no buffer, which is then forgotten *)
+Lemma wf_clear_slot w i r m' r' :
+  WF w -> nth_error (pool w) i = Some (Some r) -> step_ok (wmem w) (refs (pool w)) r m' r' ->
+  (forall b, names r' b = false) ->
+  WF (set_slot w m' i None)
+  /\ (forall j rj, j <> i -> nth_error (pool w) j = Some (Some rj) ->
+        text_of m' rj = text_of (wmem w) rj /\ cap_of m' rj = cap_of (wmem w) rj).
+Proof.
+  intros HW Hi Hs Hn. destruct (wf_set_slot w i r m' r' HW Hi Hs) as ([WM WH WS] & Ho).
+  split; [|intros j rj Hne Hj; apply (Ho j rj Hne Hj)].
+  cbn [set_slot pool wmem] in *. split; cbn [set_slot pool wmem].
+  - eapply MI_ext; [exact WM|]. intros b.
+    pose proof (refs_upd (pool w) i (Some r) (Some r') b Hi) as E1.
+    pose proof (refs_upd (pool w) i (Some r) None b Hi) as E2. cbn [slot_names] in *. rewrite Hn in E1. cbn [one] in E1. lia.
+  - intros j rj Hj. destruct (Nat.eq_dec j i) as [->|Hne].
+    + rewrite nth_error_upd_eq in Hj by (eapply nth_error_lt; eauto). discriminate.
+    + apply (WH j). rewrite nth_error_upd_ne by exact Hne. rewrite nth_error_upd_ne in Hj by exact Hne. exact Hj.
+  - exact WS.
+Qed.
